@@ -405,4 +405,43 @@ Proof.
   intros H1 H2 H3. rewrite stoch_loop_S, H1, H2. unfold next_pending_time. rewrite H3. reflexivity.
 Qed.
 
+(* spelled out: no edge from the left to the right compartment, no node in the compartment *)
+Corollary quiescent_no_edge (s : st cworld) : wf_model cm = true -> JJ s ->
+  (forall ev, In ev (cm_events cm) -> (0 <= ce_p ev)%Q) ->
+  Qeq_bool (sum_rates s (transitions tb)) 0 = true ->
+  forall cev l r, In cev (cm_events cm) -> ce_elem cev = true -> (0 < ce_p cev)%Q ->
+  nth (ce_locus cev) (cm_specs cm) default_spec = EdgeLocus l r ->
+  forall a b, In (a, b) edges \/ In (b, a) edges ->
+  ~ (getc (cw_st (world s)) a = Some l /\ getc (cw_st (world s)) b = Some r).
+Proof.
+  intros Hwf Hj Hnn Hz cev l r Hin Hel Hp Hsp a b Hab [Ha Hb].
+  apply (quiescent s Hwf Hj Hnn Hz cev Hin Hel Hp (E a b)). rewrite Hsp. cbn [truthP qual]. split.
+  - unfold adj. apply adjb_spec. destruct Hj as (_ & _ & _ & -> & _). exact Hab.
+  - rewrite Ha, Hb. cbn [ceq]. rewrite !Z.eqb_refl. reflexivity.
+Qed.
+
+Corollary quiescent_no_node (s : st cworld) : wf_model cm = true -> JJ s ->
+  (forall ev, In ev (cm_events cm) -> (0 <= ce_p ev)%Q) ->
+  Qeq_bool (sum_rates s (transitions tb)) 0 = true ->
+  forall cev c, In cev (cm_events cm) -> ce_elem cev = true -> (0 < ce_p cev)%Q ->
+  nth (ce_locus cev) (cm_specs cm) default_spec = NodeLocus c ->
+  forall v, In v nodes -> getc (cw_st (world s)) v <> Some c.
+Proof.
+  intros Hwf Hj Hnn Hz cev c Hin Hel Hp Hsp v Hv Hc.
+  apply (quiescent s Hwf Hj Hnn Hz cev Hin Hel Hp (N v)). rewrite Hsp. cbn [truthP]. split; [|exact Hc].
+  destruct Hj as (_ & _ & -> & _). exact Hv.
+Qed.
+
+(* ------------------------------------------------------------------ C07_partition *)
+Theorem partition (s : st cworld) : JJ s ->
+  let st := cw_st (world s) in
+  st_nodes st = nodes /\ st_edges st = edges
+  /\ (forall v, In v nodes -> exists c, getc st v = Some c /\ In c (cm_comps cm))
+  /\ NoDup (cm_comps cm)
+  /\ lsum (map (count_in st) (cm_comps cm)) = length nodes.
+Proof.
+  intros (_ & _ & Hn & He & Hg). cbv zeta. split; [exact Hn|]. split; [exact He|]. split; [exact Hg|].
+  split; [apply znodup_NoDup|]. rewrite <- Hn. apply counts_sum; [apply znodup_NoDup|]. rewrite Hn. exact Hg.
+Qed.
+
 End CD.
